@@ -1011,6 +1011,9 @@ impl<'a> Interp<'a> {
                 v => panic!("interp: exit {v:?}"),
             },
             Stmt::Fatal(m) => return Err(Stop::Fatal(m.clone())),
+            Stmt::Raw(t) if t.starts_with("std::force_") => {
+                self.stat("forced-collection");
+            }
             Stmt::Raw(_) => panic!("interp: raw statement"),
         }
         Ok(())
